@@ -90,7 +90,20 @@ class X509(object):
 
         :type bytes: L{str} (in python2) or L{bytearray} of unsigned bytes
         :param bytes: A DER-encoded X.509 certificate.
+        :raises SyntaxError: when the certificate is malformed
         """
+        try:
+            self._parse_binary(cert_bytes)
+        except SyntaxError:
+            raise
+        except (IndexError, KeyError, ValueError, TypeError, AssertionError,
+                OverflowError) as exc:
+            # the low level ASN.1 and key parsers signal malformed input in
+            # many ways, present a single one to callers
+            raise SyntaxError("Malformed certificate: {0!r}".format(exc))
+
+    def _parse_binary(self, cert_bytes):
+        """Parse a DER-encoded X.509 certificate."""
         self.bytes = bytearray(cert_bytes)
         parser = ASN1Parser(self.bytes)
 
